@@ -23,3 +23,18 @@ claim("C10", "property-based testing (proptest) + coverage-guided fuzzing (libFu
 claim("C13", "property-based testing (proptest) with an independent Keccak-256 and exact event-shape oracle",
       "Random senders (accounts with exact / missing / mismatching authorisation, contracts calling as themselves or naming others), destination strings and payloads around the Keccak rate up to 64 KiB; the single announcement event is compared field by field with independently computed values, gateway state must be unchanged, unauthorised calls must leave the ledger identical.",
       "host authorisation framework trusted; mock account contracts registered by mock_auths are set up before the snapshot", "DESIGN.md §3 C13")
+claim("C04", "property-based testing (proptest): conforming delivery + single deviation over trusted-chain histories, effect/snapshot oracle",
+      "Random trusted-chain histories and deliveries that deviate from a conforming one in exactly one respect named by the statement; effects must occur iff nothing deviates, every rejected delivery must leave the full ledger snapshot identical. Payloads are built by the harness's own ABI encoder. Sampled, not exhaustive.",
+      "tokens deployed by ITS run the current source natively (function table injected at the deterministic address); one known finding is matched by exact key", "DESIGN.md §3 C04")
+claim("C05", "stateful property-based testing (proptest histories) against a balance/custody/supply ledger model with independent payload encoding",
+      "Random histories over both token kinds; every balance, custody and supply compared with a ledger model after every step; successful outbound transfers' announcements compared with the harness's own ABI encoding and Keccak; refused calls must leave the ledger snapshot identical.",
+      "closed address pool (supply = sum of balances over it); the configuration of known finding C11 is excluded by construction; all authorisations mocked (C07 studies them)", "DESIGN.md §3 C05")
+claim("C06", "exhaustive entry-point x principal matrix + property-based role-transfer histories, by record-and-substitute authorisation",
+      "All 27 administrative entry points x 7 principal classes are enumerated in every run; proptest adds role-transfer histories. The authorisation trees a call needs are recorded in a twin world and replayed in a fresh one with exactly one principal signing; success iff that principal is the current holder per a role model; refusals must leave the ledger identical.",
+      "world construction is deterministic (same addresses in twin and replay worlds); host authorisation framework trusted; accept-all account contracts stand for 'this address signed'", "DESIGN.md §3 C06")
+claim("C11", "stateful property-based testing (proptest histories) with independent id/address derivation and a write-once registry model",
+      "Random histories of local deployments, canonical registrations and remote deploy messages with collisions over two ITS instances; ids and addresses compared with own Keccak/XDR/sha256 derivations; registry write-once; post-deployment role, balance and metadata checks and a behavioural inbound-transfer probe on every deployed token.",
+      "one known finding matched by exact configuration key; statement-undecided deployments counted as Either", "DESIGN.md §3 C11")
+claim("C18", "property-based testing (proptest) with independent id derivation and payload encoding",
+      "Random token kinds/metadata (incl. a harness token with unrepresentable metadata), callers, destinations, gas amounts and authorisation; success predicted from the statement's conditions; announced payload, gas event and service event compared field by field with independently computed values; only the gas payment may move funds; refusals leave the ledger identical.",
+      "authorisation is all-or-nothing here (C07 studies who must authorise)", "DESIGN.md §3 C18")
